@@ -49,6 +49,9 @@ def cases(tier, seed):
         out.append(dict(type="cube", kind=kind, eq=[], quick=tier == "quick"))  # forward problem: eq_params == {}
         # the same cube evaluated on a batch that carries per-sample values of another parameter (vmapped code paths)
         out.append(dict(type="cube", kind=kind, eq=["a"], quick=tier == "quick", pbatch=True))
+        # a hyper-network whose input is the equation parameter a: the gradient w.r.t. a flows through the generated weights
+        if kind != "nonstatio" or tier == "thorough":
+            out.append(dict(type="cube", kind=kind, eq=["a"], quick=tier == "quick", hyper=True))
         out.append(dict(type="strings", kind=kind, eq=eqs))
         out.append(dict(type="system", kind=kind, eq=BOUNDS[tier]["eq"]))
     return [c for c in out if not (c["type"] == "system" and c["kind"] == "statio")]
@@ -65,9 +68,15 @@ def out_tr(inp, out, p):
     return r
 
 
-def build(kind, eqs, dk=None, pbatch=False):
+def build(kind, eqs, dk=None, pbatch=False, hyper=False):
     d = 1
-    u, coef, expo = L.make_u(kind, d, 1, deg=2, salt=5, output_transform=out_tr)
+    if hyper:
+        n_in = d + (0 if kind == "statio" else 1) if kind != "ode" else 1
+        u = jinns.utils.create_HYPERPINN(jax.random.PRNGKey(3), ((eqx.nn.Linear, n_in, 2), (jnp.tanh,), (eqx.nn.Linear, 2, 1)), L.EQ_TYPE[kind], ["a"], 1,
+                                         d if kind != "ode" else 0, output_transform=out_tr,
+                                         eqx_list_hyper=((eqx.nn.Linear, 1, 3), (jnp.tanh,), (eqx.nn.Linear, 3, 1000)))
+    else:
+        u, coef, expo = L.make_u(kind, d, 1, deg=2, salt=5, output_transform=out_tr)
     eqp = {"b": jnp.asarray(-0.4)} if "b" in eqs else {}
     if "a" in eqs:
         eqp["a"] = jnp.asarray(0.7)  # non-alphabetical insertion order
@@ -146,17 +155,21 @@ def flat_grad(g, eqs):
 def run_cube(case):
     kind, eqs = case["kind"], case["eq"]
     pbatch = case.get("pbatch", False)
+    hyper = case.get("hyper", False)
     terms = TERMS[kind] if not pbatch else [t for t in TERMS[kind] if t not in ("norm_loss", "boundary_loss")]
     nT, nG = len(terms), 1 + len(eqs)
-    site = f"derivative_keys/{kind}" + ("/param_batch" if pbatch else "")
+    site = f"derivative_keys/{kind}" + ("/param_batch" if pbatch else "") + ("/hyper_network" if hyper else "")
     extra = {"q": True} if pbatch else None
-    _, params_d, _ = build(kind, eqs, None, pbatch) if pbatch else (None, None, None)
+    def build_(kind_, eqs_, dk_=None, pbatch_=False):
+        return build(kind_, eqs_, dk_, pbatch_, hyper)
+
+    _, params_d, _ = build_(kind, eqs, None, pbatch) if pbatch else (None, None, None)
     _dk = dk_from_masks
 
     def dk_from_masks_(kind_, eqs_, terms_, masks_, reverse_keys=False):
         return _dk(kind_, eqs_, terms_, masks_, reverse_keys=reverse_keys, extra=extra, defaults_from=params_d)
 
-    loss0, params, batch = build(kind, eqs, dk_from_masks_(kind, eqs, terms, [[True] * nG] * nT), pbatch)
+    loss0, params, batch = build_(kind, eqs, dk_from_masks_(kind, eqs, terms, [[True] * nG] * nT), pbatch)
 
     def f(masks):
         loss = eqx.tree_at(lambda l: l.derivative_keys, loss0, dk_from_masks_(kind, eqs, terms, masks))
@@ -214,7 +227,7 @@ def run_cube(case):
         for base in (False, True):
             m = [[base] * nG for _ in range(nT)]
             m[t][g] = not base
-            le, pe, be = build(kind, eqs, dk_from_masks_(kind, eqs, terms, m, reverse_keys=True), pbatch)
+            le, pe, be = build_(kind, eqs, dk_from_masks_(kind, eqs, terms, m, reverse_keys=True), pbatch)
             ge = flat_grad(jax.grad(lambda p: le.evaluate(p, be)[0])(pe), eqs)
             idx = int(np.argwhere((cube.reshape(len(cube), -1) == np.array(m).reshape(-1)).all(axis=1))[0][0])
             neager += 1
@@ -225,7 +238,7 @@ def run_cube(case):
                 break
         if tier_is_quick(case) and neager >= 10:
             break
-    return dict(viol=v, evals=len(cube) + neager, nontrivial=[f"{kind}|{i}" for i in range(len(cube)) if cube[i].any()],
+    return dict(viol=v, evals=len(cube) + neager, nontrivial=[f"{site}|{eqs}|{i}" for i in range(len(cube)) if cube[i].any()],
                 outcomes=[f"{kind}|{round(float(np.abs(gtot[0]).sum()), 6)}"] + [f"{kind}|g{g}|{len(np.unique(np.round(gtot[g], 9), axis=0))}" for g in range(nG)],
                 sample={"kind": kind, "masks": len(cube), "terms": terms, "groups": ["nn_params"] + eqs, "eager_rechecks": neager})
 
